@@ -104,9 +104,18 @@ impl<'a> Exec<'a> {
             return Ok(());
         }
         // conservation: returned prompt ++ pending forced text == original prompt ++ forced bytes
+        // special tokens appear in forced text as \xFF[id]: decode them the same way
         let trie_decode = |toks: &[u32], me: &Exec| -> Vec<u8> {
             toks.iter()
-                .flat_map(|t| me.ctx.tok_bytes(*t).to_vec())
+                .flat_map(|t| {
+                    if me.ctx.is_special(*t) {
+                        let mut x = vec![0xffu8];
+                        x.extend_from_slice(format!("[{t}]").as_bytes());
+                        x
+                    } else {
+                        me.ctx.tok_bytes(*t).to_vec()
+                    }
+                })
                 .collect()
         };
         let res = c.process_prompt(prompt.to_vec());
@@ -400,8 +409,11 @@ impl<'a> Exec<'a> {
                             format!("h{g}: commit_token returned stop although compute_mask had returned a mask"),
                         ));
                     }
-                    if o.tokens.contains(&eos) {
+                    if o.tokens.iter().any(|t| self.ctx.world.is_eos(*t)) {
                         self.stats.probe("eos_committed");
+                        if o.tokens.iter().any(|t| self.ctx.world.is_eos(*t) && *t != eos) {
+                            self.stats.probe("secondary_eos_committed");
+                        }
                     }
                     let hist = s.hist.clone();
                     self.ev(format!("ccommit h{g} {t} -> {:?}", o.tokens));
@@ -471,8 +483,9 @@ impl<'a> Exec<'a> {
             // would have to skip it - covered by the prompt conservation check instead
             return self.skip_c("healed_prompt");
         }
+        let _ = eos;
         let (hist_noeos, had_eos) = match hist.last() {
-            Some(t) if *t == eos => (&hist[..hist.len() - 1], true),
+            Some(t) if self.ctx.world.is_eos(*t) => (&hist[..hist.len() - 1], true),
             _ => (&hist[..], false),
         };
         let mut bytes = grm_in_prompt.clone();
@@ -494,6 +507,9 @@ impl<'a> Exec<'a> {
                     String::from_utf8_lossy(&bytes)
                 ),
             ));
+        }
+        if grm_in_prompt.is_empty() && !rejected {
+            self.chk_replayed_constraint(h, &hist, stopped, &pending)?;
         }
         if stopped {
             // complete string of the grammar, and cannot be extended or EOS was committed
@@ -587,6 +603,78 @@ impl<'a> Exec<'a> {
         }
         self.ev(format!("chk_text h{h} ok {}", bytes.len()));
         Ok(())
+    }
+
+    /// C11 at the sampling-loop level: a constraint whose history is installed with
+    /// start_without_prompt() + force_tokens() (the documented replay path) answers the next
+    /// compute_mask() exactly like the constraint that was driven step by step.
+    fn chk_replayed_constraint(
+        &mut self,
+        h: SlotId,
+        hist: &[TokenId],
+        stopped: bool,
+        pending: &Option<Vec<u32>>,
+    ) -> VResult<()> {
+        if !stopped && pending.is_none() {
+            return Ok(());
+        }
+        let nv = self.ctx.n_vocab();
+        let p = match self.ctx.world.new_parser_with(&self.ctx.world.factory) {
+            Ok(p) => p,
+            Err(_) => return Ok(()),
+        };
+        let mut c = llguidance::Constraint::new(p);
+        c.start_without_prompt();
+        if c.force_tokens(hist).is_err() {
+            if self.fault_free() {
+                return Err(self.viol(
+                    "fresh_equivalence",
+                    "replayed_constraint_rejects_history",
+                    format!("force_tokens({:?}) fails on a fresh constraint", hist),
+                ));
+            }
+            return Ok(());
+        }
+        let mut ch = CH::R(c);
+        let r = ch.compute_mask(nv);
+        self.stats.probe("constraint_replay_compared");
+        match (r, stopped, pending) {
+            (Ok(StepOut::Stop), true, _) => Ok(()),
+            (Ok(StepOut::Mask(m)), false, Some(pm)) => {
+                if let Some((t, ina)) = mask_diff(pm, &m) {
+                    return Err(self.viol(
+                        "fresh_equivalence",
+                        "differs_from_replayed_constraint:mask",
+                        format!("h{h} after {:?}: token {t} stepwise={ina} replayed={}", hist, !ina),
+                    ));
+                }
+                Ok(())
+            }
+            (Ok(o), _, _) => Err(self.viol(
+                "fresh_equivalence",
+                "differs_from_replayed_constraint:step",
+                format!(
+                    "h{h} after {:?}: stepwise constraint {} but the replayed one returns {}",
+                    hist,
+                    if stopped { "reported STOP" } else { "returned a mask" },
+                    match o {
+                        StepOut::Stop => "STOP",
+                        StepOut::Mask(_) => "a mask",
+                        StepOut::Splice(_) => "a splice",
+                    }
+                ),
+            )),
+            (Err(e), _, _) => {
+                if self.fault_free() && classify_err(&e.to_string()) != ErrClass::Limit {
+                    return Err(self.viol(
+                        "fresh_equivalence",
+                        "differs_from_replayed_constraint:error",
+                        format!("h{h} after {:?}: replayed constraint fails: {}", hist, short(&e.to_string())),
+                    ));
+                }
+                Ok(())
+            }
+        }
     }
 
     // ------------------------------------------------------------- llg_par_compute_mask (M-buf)
